@@ -204,7 +204,7 @@ def run(ctx: Ctx) -> None:
 
     with Taps(ctx) as taps:
         install(taps, ctx)
-        for idx in ctx.indices("direct", 150 if ctx.quick else 6000):
+        for idx in ctx.indices("direct", 150 if ctx.quick else 60000):
             r = ctx.rng("direct", idx)
             n = r.choice([1, 2, 3, 5, 10, 30]) if r.random() < 0.7 else r.randint(1, 30)
             frame_id = r.choice(["base_link", "map"])
@@ -221,7 +221,7 @@ def run(ctx: Ctx) -> None:
         # ---- through the real manager on loaded datasets
         from ..scenario import Run, gen_scenario
 
-        for idx in ctx.indices("manager", 10 if ctx.quick else 600):
+        for idx in ctx.indices("manager", 10 if ctx.quick else 3000):
             r = ctx.rng("manager", idx)
             scn = gen_scenario(r, task=r.choice(["detection", "tracking"]), n_frames=r.randint(2, 5))
             frame_id = r.choice(["base_link", "map"])
